@@ -202,6 +202,17 @@ CLAIMED["C26"] = dict(
          "R-vector shifts for every alpha.",
     note=TB + "; copy.deepcopy copies; set() iteration order arbitrary (the obligations do not depend on it)")
 
+CLAIMED["C29"] = dict(
+    text="Path.from_nodes (real text, real numpy, SYMBOLIC node coordinates) for node patterns with 0-2 breaks and nk as an integer or per "
+         "segment: every node in order at the expected index with its label, uniform sampling of each segment, a break repeats the node "
+         "before it and is recorded there, last node appended; the dk/length variant on concrete nodes and three lattices. "
+         "Path.get_refined for symbolic k-points, every break set of a 5-point path and factors 1-3: original points at pos(i), uniform "
+         "subdivision, labels/breaks moved along. Path.get_K_list for every batch size 1-9: batches concatenate to the path. "
+         "Path.getKline on concrete paths: 0 at the start, Cartesian segment lengths, 0 across breaks, non-decreasing. Per shape, for all "
+         "real node coordinates. 'Path order with each point's own values' is TABresult.self_to_path, proved for every collection order "
+         "in C12; that a tabulator's row depends on its own k-point only is the k-list Fourier contract (C02, not built).",
+    note=TB + "; sampling fractions t/(nk-1) are checked with dyadic nk (exact in floats); evaluate_k_path itself is not under contract")
+
 NOT_APPLICABLE = {
     "C20": "real-space symmetrisation is a data-dependent floating-point orbit search over irrep objects; its postcondition is only statable through an eigen-solver, no discrete/algebraic kernel is left once externals are abstracted (DESIGN section 7)",
     "C21": "rotation matrices are produced inside sympy (polynomial expansion + evalf); orthogonality/composition live in that CAS computation, outside any contract this engine can generate VCs for (DESIGN section 7)",
